@@ -34,9 +34,11 @@ theorem counterpart_never_planned (cfg : Cfg) (scan : List SEntry) (dst : Map DN
     · cases ht
 
 /-- **… and it is still present after the run**, under every fault plan that does not wipe that
-    very path, provided it does not sit below a stale directory that is itself deleted. -/
+    very path, provided it does not sit below a stale directory that is itself deleted.  (`hne`: the
+    source root itself is never an entry, `NoRoot`; needed since fix 862af11, where a directory entry
+    over a destination link first unlinks the link — at the root `create_dir_all` then has nothing to do.) -/
 theorem counterpart_never_deleted (cfg : Cfg) (flt : Faults) (scan : List SEntry) (dst : Map DNode) (n : Nat)
-    (e : SEntry) (_he : e ∈ scan) (hp : dst.get? e.rel ≠ none)
+    (e : SEntry) (_he : e ∈ scan) (hne : e.rel ≠ []) (hp : dst.get? e.rel ≠ none)
     (hstale : ∀ t ∈ plan cfg scan dst, t.act = .delete → isPrefix t.rel e.rel = false)
     (hflt : ∀ t ∈ plan cfg scan dst, t.rel = e.rel → flt t ≠ some none) :
     (runF cfg flt scan dst n).dst.get? e.rel ≠ none := by
@@ -44,7 +46,7 @@ theorem counterpart_never_deleted (cfg : Cfg) (flt : Faults) (scan : List SEntry
   | true => rw [runF_refused_dst hr]; exact hp
   | false =>
     rw [(runF_of_not_refused hr).1]
-    apply foldl_present cfg flt _ _ _ hp hstale
+    apply foldl_present cfg flt _ _ _ hne hp hstale
     intro t ht hrel
     unfold faultOf
     split
@@ -58,7 +60,7 @@ theorem counterpart_never_deleted_wf (cfg : Cfg) (flt : Faults) (scan : List SEn
     (e : SEntry) (he : e ∈ scan) (hp : dst.get? e.rel ≠ none)
     (hflt : ∀ t ∈ plan cfg scan dst, t.rel = e.rel → flt t ≠ some none) :
     (runF cfg flt scan dst n).dst.get? e.rel ≠ none := by
-  apply counterpart_never_deleted cfg flt scan dst n e he hp _ hflt
+  apply counterpart_never_deleted cfg flt scan dst n e he (fun h => hp (h ▸ hroot)) hp _ hflt
   intro t ht ha
   rw [plan_eq] at ht
   rcases List.mem_append.1 ht with ht | ht
